@@ -71,8 +71,8 @@ MAX_HANDLES = 8
 def phases(tier: str) -> List[Dict[str, Any]]:
     if tier == "quick":
         return [
-            {"name": "nofault", "runs": 10000, "batch": 125, "timeout": 240, "wall": 100},
-            {"name": "faults", "runs": 10000, "batch": 125, "timeout": 240, "wall": 100},
+            {"name": "nofault", "runs": 8000, "batch": 125, "timeout": 240, "wall": 100},
+            {"name": "faults", "runs": 8000, "batch": 125, "timeout": 240, "wall": 100},
         ]
     return [
         {"name": "nofault", "runs": 120000, "batch": 500, "timeout": 1200, "wall": 900},
